@@ -381,7 +381,9 @@ func rewriteFile(p *packages.Package, f *ast.File, src []byte, stats map[string]
 			return true
 		})
 	}
-	if *doLocks && !startsGoroutines[p.PkgPath] {
+	if *doLocks {
+		// (also in packages that start goroutines of their own: the operations decide at run time whether the
+		// goroutine executing them is the caller holding the turn, and block for real otherwise)
 		r.blocking(f)
 	}
 	if len(r.edits) == 0 {
@@ -444,6 +446,35 @@ func (r *rewriter) blocking(f *ast.File) {
 			return false // the communication of a select case stays as it is
 		}
 		switch x := n.(type) {
+		case *ast.SelectStmt:
+			// a select that would block becomes a loop of non-blocking tries, the turn given away in between
+			hasDefault, nakedContinue := false, false
+			for _, c := range x.Body.List {
+				cc := c.(*ast.CommClause)
+				if cc.Comm == nil {
+					hasDefault = true
+				}
+				for _, st := range cc.Body {
+					ast.Inspect(st, func(m ast.Node) bool {
+						switch y := m.(type) {
+						case *ast.ForStmt, *ast.RangeStmt, *ast.FuncLit:
+							return false // a continue in there is theirs
+						case *ast.BranchStmt:
+							if y.Tok == token.CONTINUE && y.Label == nil {
+								nakedContinue = true
+							}
+						}
+						return true
+					})
+				}
+			}
+			if !hasDefault && !nakedContinue && len(x.Body.List) > 0 {
+				id := newSite(r.fset, x.Pos(), "chan", "", "select")
+				r.insert(x.Pos(), "for { ", 2)
+				r.insert(x.Body.Rbrace, fmt.Sprintf("default: zzsimrt.SelectBlocked(%d); continue\n", id), 0)
+				r.insert(x.End(), "; break }", 0)
+				r.stats["select"]++
+			}
 		case *ast.SendStmt:
 			id := newSite(r.fset, x.Pos(), "chan", "", r.text(x.Chan))
 			r.insert(x.Pos(), fmt.Sprintf("zzsimrt.Send(%d, ", id), 2)
